@@ -48,13 +48,10 @@ def main():
     meta = json.load(open(os.path.join(src, 'meta.json')))
     bid = meta.get('id') or os.path.basename(src)
     scratch = '/tmp/benignchk_%s' % bid
-    shutil.rmtree(scratch, ignore_errors=True)
-    shutil.copytree('/repo', scratch, ignore=shutil.ignore_patterns('.git', '__pycache__', '*.egg-info', 'docs', 'examples'))
     out = {'id': bid}
-    r = sh(['patch', '-p1', '--no-backup-if-mismatch', '-i', os.path.join(os.path.abspath(src), 'patch.diff')], cwd=scratch)
-    out['applies'] = r.returncode == 0
-    if not out['applies']:
-        out['apply_output'] = (r.stdout + r.stderr)[-300:]
+    sys.path.insert(0, os.path.dirname(os.path.abspath(__file__)))
+    from seedcheck import apply_change
+    if not apply_change(src, scratch, meta, out):
         print(json.dumps(out, indent=1))
         shutil.rmtree(scratch, ignore_errors=True)
         return 2
